@@ -297,6 +297,92 @@ def misc_kernels(ctx):
     return K
 
 
+# ---------------------------------------------------------------------------------------------- parse_duration: arithmetic tail
+
+UNITS = [(2, 'd', 86_400_000), (4, 'h', 3_600_000), (6, 'm', 60_000), (8, 's', 1000), (10, 'ms', 1)]
+
+
+def duration_kernel(ctx):
+    """parse_duration with the regex front end replaced by an ABSTRACT TOKENIZER (trusted model): capture group k is absent, or present
+    with a numeral that fits u64 (value n_k), or present with a numeral that does not fit u64.  Everything after the captures - sign handling,
+    unit factors, range checks - is the real code."""
+    P = ctx.prog('core')
+    f = P.method('extensions/datetime.rs', 'parse_duration', nargs=1)
+
+    def make(ex):
+        from ..executor import Ref, Opaque, StrV
+        from ..models import ok as OK, err as ERR, some as SOME, none as NONE
+        NEG = ex.fresh_bool('neg')
+        ins = {'neg': NEG.t}
+        grp = {}
+        for idx, u, _ in UNITS:
+            grp[idx] = (ex.fresh_bool(f'has_{u}').t, ex.fresh_bool(f'fits_{u}').t, ex.fresh_int('u64', f'n_{u}'))
+            ins[f'has_{u}'], ins[f'fits_{u}'], ins[f'n_{u}'] = grp[idx][0], grp[idx][1], grp[idx][2].t
+        ex.stub(r'<impl str>::is_empty$', lambda ex, st, c, A: BoolV(z3.BoolVal(False)), 'str::is_empty: the input is not empty (empty input is rejected before the code under test)')
+        ex.stub(r'<&str as PartialEq>::eq$', lambda ex, st, c, A: BoolV(z3.BoolVal(False)), 'the input is not "-"')
+        ex.stub(r'<LazyLock<regex::Regex> as Deref>::deref$', lambda ex, st, c, A: ex.new_cell(st, Opaque('regex::Regex', 'DURATION_PATTERN'), 'regex'), 'DURATION_PATTERN (opaque)')
+        ex.stub(r'Regex::captures$', lambda ex, st, c, A: SOME(Opaque("regex::Captures<'_>", 'captures')), 'Regex::captures: the pattern matches (abstract tokenizer)')
+
+        def cap_get(ex, st, c, A):
+            i = ex.concrete(A[1].t)
+            if i not in grp:
+                raise NotEncoded(f'capture group {i}')
+            return [([grp[i][0]], SOME(Opaque("regex::Match<'_>", f'group{i}'))), ([z3.Not(grp[i][0])], NONE())]
+        ex.stub(r"Captures::<'_>::get$", cap_get, 'Captures::get(k): group k present or absent (abstract tokenizer)')
+        ex.stub(r"Match::<'_>::as_str$", lambda ex, st, c, A: A[0] if isinstance(A[0], Ref) else ex.new_cell(st, A[0], 'group'), 'Match::as_str (the group itself)')
+
+        def parse(ex, st, c, A):
+            g = A[0]
+            while isinstance(g, Ref):
+                g = ex.read(st, g.fid, g.place)
+            i = int(g.what.replace('group', ''))
+            return [([grp[i][1]], OK(grp[i][2])), ([z3.Not(grp[i][1])], ERR(Opaque('ParseIntError', 'numeral does not fit u64')))]
+        ex.stub(r'<impl str>::parse::<u64>$', parse, 'str::parse::<u64>: the numeral fits u64 (value n_k) or does not (abstract tokenizer)')
+        ex.stub(r'<impl str>::starts_with::<char>$', lambda ex, st, c, A: BoolV(NEG.t), "str::starts_with('-'): the sign bit")
+        ex.initial_heap = {'S': Opaque('str', 'input')}
+        pre = [z3.Or([grp[i][0] for i in grp])]          # a non-empty match has at least one unit group
+        return ins, [Ref(0, ('local', 'S'))], pre
+
+    def spec(ins, tag, vals):
+        bad = Or(*[And(ins[f'has_{u}'], Not(ins[f'fits_{u}'])) for _, u, _ in UNITS])
+        mag = 0
+        for _, u, k in UNITS:
+            mag = mag + If(ins[f'has_{u}'], ins[f'n_{u}'], 0) * k
+        total = If(ins['neg'], -mag, mag)
+        if tag == 'Ok':
+            return And(Not(bad), in_range(total, 'i64'), vals[0] == total)
+        if tag == 'Err':
+            return Or(bad, Not(in_range(total, 'i64')))
+        return False
+
+    def native(nat, c):
+        s = '-' if c['neg'] else ''
+        for _, u, _k in UNITS:
+            if c[f'has_{u}']:
+                s += (str(c[f'n_{u}']) if c[f'fits_{u}'] else '99999999999999999999999') + u
+        tag, vals = eval_long(nat, f'duration("{s}").toMilliseconds()')
+        return ('Ok', vals) if tag == 'Some' else (('Err', []) if tag == 'None' else (tag, vals))
+
+    def gen(rand):
+        c = {'neg': rand.random() < 0.5}
+        for _, u, k in UNITS:
+            c[f'has_{u}'] = rand.random() < 0.5
+            c[f'fits_{u}'] = rand.random() < 0.9
+            lim = (1 << 63) // k
+            c[f'n_{u}'] = rand.choice([0, 1, lim, lim + 1, lim - 1, (1 << 63) - 1, 1 << 63, (1 << 64) - 1, rand.randint(0, lim), rand.randint(0, 1 << 40)])
+        if not any(c[f'has_{u}'] for _, u, _ in UNITS):
+            c['has_ms'] = True
+        return c
+    inputs = [('neg', 'bool')] + [x for _, u, _ in UNITS for x in ((f'has_{u}', 'bool'), (f'fits_{u}', 'bool'), (f'n_{u}', 'u64'))]
+    base = {'neg': False, **{f'has_{u}': False for _, u, _ in UNITS}, **{f'fits_{u}': True for _, u, _ in UNITS}, **{f'n_{u}': 0 for _, u, _ in UNITS}}
+    K = Kernel('parse_duration (arithmetic tail)', f, inputs, None, lambda ex, o: scalars_only(flat(ex, o)), spec, native=native, make=make, gen=gen, expect_tags=('Ok', 'Err'))
+    K.samples_fn = lambda: [dict(base, has_ms=True, n_ms=(1 << 63) - 1), dict(base, has_ms=True, n_ms=1 << 63), dict(base, neg=True, has_ms=True, n_ms=1 << 63),
+                            dict(base, neg=True, has_ms=True, n_ms=(1 << 63) + 1), dict(base, has_s=True, n_s=(1 << 64) - 1), dict(base, neg=True, has_h=True, n_h=(1 << 64) - 1),
+                            dict(base, has_d=True, n_d=106751991167), dict(base, has_d=True, n_d=106751991168), dict(base, has_d=True, n_d=1, has_ms=True, n_ms=5, neg=True),
+                            dict(base, has_s=True, fits_s=False)]
+    return K
+
+
 def _as_val(r):
     tag, vals = r
     return ('val', vals) if tag in ('Some', 'Bool') else (tag, vals)
@@ -307,6 +393,7 @@ def families(ctx):
     ctx.guarded('C07/locate-kernels', lambda: ks.extend(kernels(ctx)))
     ctx.guarded('C07/locate-ip-kernels', lambda: ks.extend(ip_kernels(ctx)))
     ctx.guarded('C07/locate-decimal-offset-kernels', lambda: ks.extend(misc_kernels(ctx)))
+    ctx.guarded('C07/locate-parse_duration', lambda: ks.append(duration_kernel(ctx)))
     return [(K.name, (lambda K=K: run_kernel(ctx, K))) for K in ks]
 
 
